@@ -296,7 +296,7 @@ def setup():
 # running cases
 
 
-class CaseTimeout(Exception):
+class CaseTimeout(BaseException):     # not an Exception: no `except Exception` in a property module may swallow it
     pass
 
 
